@@ -10,6 +10,7 @@ try:
     subprocess.run(['git', 'apply', '--include=src/*', patch], cwd=d, check=True)
     os.environ['TD_REPO'] = d
     from tdstatic import loader, gate, equiv
+    loader.Index(d + '/src')
     files = sorted(set(re.findall(r'^\+\+\+ b/(\S+)', open(patch).read(), re.M)))
     for rel in files:
         name = rel[4:-3].replace('/', '.')
